@@ -235,6 +235,8 @@ class Oracle(Q.QOracle):
                   float(x64.reshape(-1)[i]), float(y64.reshape(-1)[i]),
                   float(unit[i])))
     top = min(abs(f["lo"]), abs(f["hi"])) if f["off"] == 0 else 0.5
+    if not f["kn"]:
+      top = f["hi"]   # unsigned: codes 0..2^bits-1, the maximum maps to the last
     nottop = is_max & (np.abs(kk.reshape(-1)) < top - 1e-3)
     if nottop.any():
       i = int(np.argmax(nottop))
